@@ -38,6 +38,18 @@ func (c *ClusterNode) VerifDropRPCClients() {
 	}
 }
 
+// VerifBreakRPCClients closes every cached RPC client connection of this node
+// but leaves the client objects in the cache: the state a node is in after its
+// peers restarted or dropped their connections (the next call on such a client
+// returns rpc.ErrShutdown and has to be re-dialled).
+func (c *ClusterNode) VerifBreakRPCClients() {
+	c.rpcClientsMu.Lock()
+	defer c.rpcClientsMu.Unlock()
+	for _, client := range c.rpcClients {
+		client.Close()
+	}
+}
+
 // VerifCloseAllShards unloads every loaded shard (closing its database file),
 // the way a process exit would: in-process harnesses that "restart" a node
 // need the file locks released.
